@@ -124,10 +124,10 @@ class World(object):
         sites = _env.shared_sites()
         if not sites:
             return
-        for (i, (owner, attr, pristine)) in enumerate(sites):
+        for (i, (setter, pristine)) in enumerate(sites):
             if i not in self.shared:
                 self.shared[i] = copy.deepcopy(pristine)
-            setattr(owner, attr, self.shared[i])
+            setter(self.shared[i])
 
     def in_proc(self, proc, func, *args, **kwargs):
         '''Run harness-side construction code inside a process context.'''
